@@ -264,28 +264,42 @@ def _run_play(case, cas):
             args[2].extend(recorded_data["rows"])
             return recorded_data["count"]
 
-    class Svc(object):
-        @rec.intercept_input('load')
-        def load(self, n):
-            return hg.build(g_in)[1]
+    # case["renamed"]: the replayed code is a LATER VERSION whose inputs were renamed - it declares them under new aliases with
+    # the recorded ones as fallback_aliases (None: same aliases as recorded | "list": a list, the old alias second after one
+    # that was never recorded | "callable": a function of the call's arguments returning the list)
+    renamed = case.get("renamed")
 
-        @rec.intercept_input('fill', data_handler=BufferHandler(), capture_args=[CapturedArg(1, 'n')])
-        def fill(self, n, into):
-            into.extend([hg.build(g_in)[1], hg.build(g_data)[1]])
-            return len(into)
+    def make_svc(version):
+        def names(alias):
+            if version == "recorded" or not renamed:
+                return dict(alias=alias)
+            old = [alias + '_v0', alias]
+            return dict(alias=alias + '_v2', fallback_aliases=old if renamed == "list" else (lambda *a, **k: list(old)))
 
-        @rec.intercept_input('fail')
-        def fail(self):
-            raise ValueError('boom')
+        class Svc(object):
+            @rec.intercept_input(**names('load'))
+            def load(self, n):
+                return hg.build(g_in)[1]
 
-        @rec.intercept_output('store')
-        def store(self, payload):
-            return hg.build(g_out)[1]
+            @rec.intercept_input(data_handler=BufferHandler(), capture_args=[CapturedArg(1, 'n')], **names('fill'))
+            def fill(self, n, into):
+                into.extend([hg.build(g_in)[1], hg.build(g_data)[1]])
+                return len(into)
+
+            @rec.intercept_input(**names('fail'))
+            def fail(self):
+                raise ValueError('boom')
+
+            @rec.intercept_output('store')
+            def store(self, payload):
+                return hg.build(g_out)[1]
+        return Svc
+    svc_classes = {False: make_svc("recorded"), True: make_svc("replayed")}
 
     class Op(object):
         @rec.operation(metadata_extractor=lambda *a, **k: {"tags": ["nightly", "eu"], "tenant": "acme"})
         def execute(self):
-            svc = Svc()
+            svc = svc_classes[bool(rec.in_playback_mode)]()
             a = svc.load(1)
             seen("in1", a)
             hg.mutate(a, script)                 # replayed code mutates the injected input
@@ -338,7 +352,7 @@ def _run_play(case, cas):
 
     keep = []
     try:
-        cas.get_recording(rid)
+        fetched_keys = sorted(cas.get_recording(rid).get_all_keys())
     except BaseException as ex:          # what was recorded cannot be fetched at all: not an independence question
         return {"skipped": "first fetch raised " + err_name(ex)}
     for k, pre in enumerate(case["pre_steps"]):
@@ -375,6 +389,9 @@ def _run_play(case, cas):
         p["recorded_outputs"] = hg.snap(sorted(ro, key=lambda kv: kv[0]))
         p["share_outputs_recording"] = hg.shared_mutable([o.value for o in pb.recorded_outputs], pb.original_recording)
         p["playback_outputs"] = hg.snap(sorted(([o.key, o.value] for o in pb.playback_outputs), key=lambda kv: kv[0]))
+        # the played recording holds the keys that were recorded (compared with an independent fetch made before any replay)
+        p["recording_keys"] = sorted(pb.original_recording.get_all_keys())
+        p["recording_keys_fetched"] = fetched_keys
         p["recorded_duration_type"] = type(pb.recorded_duration).__name__
         p["metadata"] = hg.snap({kk: vv for kk, vv in pb.original_recording.get_metadata().items()
                                  if kk not in (TapeRecorder.DURATION, TapeRecorder.RECORDED_AT)})
@@ -434,7 +451,45 @@ def _prepared(form, result, buf, req):
 FAMILY_ROLES = ("base", "grandbase", "mixin", "derived", "sibling", "unrelated")
 
 
-def _build_family(rec, fam, own_params, body):
+ENABLE_WAYS = ("ctor", "ctor_pos", "reg_kwargs", "assign_before_reg", "assign_after_reg", "assign_shared", "assign_in_op")
+
+
+def _own_params(rec, flag, rate, enable):
+    """The operation class's own RecordingParameters and its registration, by the way the copy flag gets its value
+    (case["enable"]): constructor keyword ("ctor"), constructor positional ("ctor_pos"), keyword arguments of
+    TapeRecorder.recording_params ("reg_kwargs"), or ASSIGNED to the attribute of an existing parameters object (constructed
+    with the opposite value) - before it is registered ("assign_before_reg"), after it was registered ("assign_after_reg"),
+    on one parameters object registered for this and for another class ("assign_shared"), or by the operation itself before
+    its first interception ("assign_in_op").  Returns (register(cls), late()): late() is to be called where the late
+    assignment belongs ("after_reg" / "in_op"), it does nothing for the other ways."""
+    kw = {} if rate is None else {"sampling_rate": rate}
+    box = {}
+
+    def assign():
+        box["p"].copy_data_on_intercepion = flag
+    if enable == "ctor":
+        box["p"] = RecordingParameters(copy_data_on_intercepion=flag, **kw)
+    elif enable == "ctor_pos":
+        box["p"] = RecordingParameters(kw.get("sampling_rate", 1.0), False, False, flag)
+    elif enable == "reg_kwargs":
+        return (lambda cls: rec.recording_params(copy_data_on_intercepion=flag, **kw)(cls)), (lambda when: None)
+    else:
+        box["p"] = RecordingParameters(copy_data_on_intercepion=not flag, **kw)
+        if enable == "assign_before_reg":
+            assign()
+
+    def register(cls):
+        rec.recording_params(box["p"])(cls)
+        if enable == "assign_shared":
+            rec.recording_params(box["p"])(type("SharesParameters", (object,), {}))
+
+    def late(when):
+        if (enable, when) in (("assign_after_reg", "after_reg"), ("assign_shared", "after_reg"), ("assign_in_op", "in_op")):
+            assign()
+    return register, late
+
+
+def _build_family(rec, fam, register_own, body):
     """The operation class as it sits in a real code base: in a class hierarchy (GrandBase <- Base <- Op(Base, Mixin) <- Derived,
     Sibling(Base), Unrelated), the decorated operation defined in the class itself or inherited from a base ("op_in"), as an
     instance or a class-level operation, and OTHER classes of the hierarchy configured on the SAME recorder with parameters of
@@ -457,14 +512,13 @@ def _build_family(rec, fam, own_params, body):
                "sibling": type("Sibling", (base,), {}), "unrelated": type("Unrelated", (object,), {})}
     for who, prm in fam["register"]:
         if who == "own":
-            p = own_params
-        else:
-            kw = dict(copy_data_on_intercepion=bool(prm.get("copy")), skipped=bool(prm.get("skipped")),
-                      ignore_enforced_sampling=bool(prm.get("ignore")))
-            if prm.get("rate") is not None:
-                kw["sampling_rate"] = prm["rate"]
-            p = RecordingParameters(**kw)
-        rec.recording_params(p)(classes[who])
+            register_own(classes[who])
+            continue
+        kw = dict(copy_data_on_intercepion=bool(prm.get("copy")), skipped=bool(prm.get("skipped")),
+                  ignore_enforced_sampling=bool(prm.get("ignore")))
+        if prm.get("rate") is not None:
+            kw["sampling_rate"] = prm["rate"]
+        rec.recording_params(RecordingParameters(**kw))(classes[who])
     return own
 
 
@@ -546,10 +600,11 @@ def run_copy(case):
         def store(self, payload):
             return capture("res", hg.build(g_out)[1])
 
-    params = RecordingParameters(copy_data_on_intercepion=flag) if rate is None else \
-        RecordingParameters(sampling_rate=rate, copy_data_on_intercepion=flag)
+    # the way the copy flag of the operation class gets its value (constructor / registration keywords / attribute assignment)
+    register_own, late = _own_params(rec, flag, rate, case.get("enable", "ctor"))
 
     def body():
+        late("in_op")
         svc = Svc()
         into = hg.build(case["vbuf"])[1] if "vbuf" in case else []
         req = hg.build(case["vreq"])[1] if "vreq" in case else {"q": [1]}
@@ -574,15 +629,17 @@ def run_copy(case):
 
     fam = case.get("family")
     if fam is None:
-        @rec.recording_params(params)
         class Op(object):
             @rec.operation()
             def execute(self):
                 return body()
+        register_own(Op)
+        late("after_reg")
         Op().execute()
     else:
         # the operation class lives in a class hierarchy, and OTHER classes are configured on the same recorder
-        Op = _build_family(rec, fam, params, body)
+        Op = _build_family(rec, fam, register_own, body)
+        late("after_reg")
         if fam.get("classlevel"):
             Op.execute()
         else:
